@@ -793,7 +793,7 @@ def num_text(ty, cls, rng):
     if cls == "plus":
         return "+%d" % rng.choice([0, 5])
     if cls == "usc":
-        return rng.choice(["1_0", "1_000"])
+        return rng.choice(["1_0", "1_1"])
     if cls == "udig":
         return rng.choice(["٣", "１２", "५"])
     if cls == "long":
@@ -2431,9 +2431,10 @@ def render(shape, wire, defects, rng, eos=None):
         KINDS[d["k"]]["fn"](ctx, d)
     body = serialise(ctx.tree, rng)
     if ctx.raw_body is not None:
-        body = ctx.raw_body
-    for tx in ctx.byte_tx:
-        body = tx(body)
+        body = ctx.raw_body       # e.g. status 204: no content possible
+    else:
+        for tx in ctx.byte_tx:
+            body = tx(body)
     return Resp(ctx.status, ctx.reason, ctx.headers, body, ctx.exc,
                 ctx.body_reader, ctx.redirect)
 
@@ -2869,14 +2870,30 @@ def run_call(op, resp, rng, limit=20.0):
         obs["cls"] = name
         obs["req"] = getattr(exc, "request_data", None) is not None
         obs["resp"] = getattr(exc, "response_data", None) is not None
+        import hashlib
         import traceback
         tb = traceback.extract_tb(exc.__traceback__)
         where = ""
+        # innermost frame inside the response-processing modules; otherwise
+        # the innermost pywbem / xml frame
+        anchored = ("_cim_operations.py", "_tupleparse.py", "_tupletree.py",
+                    "_cim_http.py")
+        pick = None
         for fr in reversed(tb):
-            if "/pywbem/" in fr.filename or "/xml/" in fr.filename:
-                where = "%s:%s:%s" % (fr.filename.split("/")[-1], fr.name,
-                                      (fr.line or "")[:80])
+            if fr.filename.split("/")[-1] in anchored and \
+                    "/pywbem/" in fr.filename:
+                pick = fr
                 break
+        if pick is None:
+            for fr in reversed(tb):
+                if "/pywbem/" in fr.filename or "/xml/" in fr.filename:
+                    pick = fr
+                    break
+        if pick is not None:
+            line = " ".join((pick.line or "").split())
+            where = "%s:%s:L%s:%s" % (
+                pick.filename.split("/")[-1], pick.name,
+                hashlib.sha1(line.encode()).hexdigest()[:6], line[:80])
         detail = "%s: %s @ %s" % (type(exc).__name__, str(exc)[:200], where)
     try:
         conn.close()
